@@ -6,8 +6,7 @@ D="$(readlink -f "$1")"; M="$(readlink -f "$2")"
 cd /repo
 git apply --check "$D"
 git apply "$D"
-git add -N . >/dev/null 2>&1 || true
-FILES=$(git diff --name-only)
+FILES=$(grep '^+++ b/' "$D" | sed 's#^+++ b/##' | sort -u)
 go build ./... 
 PKGS=$(echo "$FILES" | grep '\.go$' | xargs -n1 dirname | sort -u | sed 's#^#./#')
 go test -vet=off -count=1 -timeout 600s $PKGS 2>&1 | tail -5 || true
